@@ -175,6 +175,8 @@ def gen_program(rng, prop, name, world, tier, no_chdir=False):
     pool = read_pool(world)
     if prop == "C12":
         prog.append(_calc_new(h0, rng, valid))
+        if rng.random() < 0.4:
+            prog[-1]["inv_light"] = True      # the monitor looks at the moduli only: averages / velocities are first touched by the client's own reads
         for _ in range(rng.randint(1, 4)):
             b, n = rng.choice([p for p in pool if p[0] != "calc"])
             prog.append({"op": "calc.read", "h": h0, "base": b, "name": n})
@@ -555,24 +557,53 @@ def stub_table_text(stub):
 
 
 # functions in which in-flight state exists: a share of the line faults (cancel / alloc-fail) is aimed at them instead of at a uniformly drawn line
-AIM = {
-    "calc.new": [("core/calculator.py", "_load"), ("core/calculator.py", "_apply_elastic_constants_symmetry"), ("core/calculator.py", "_interpolate_modes"),
-                 ("core/calculator.py", "_calculate_pressure_static"), ("core/calculator.py", "_process_cij"), ("core/calculator.py", "_calculate_compliances"),
-                 ("core/tasks.py", "resolve"), ("core/tasks.py", "calculate"), ("core/tasks.py", "get_modulus_isothermal"), ("core/tasks.py", "get_modulus_adiabatic"),
-                 ("io/traditional/elast_dat.py", "apply_symetry_on_elast_data"), ("io/traditional/elast_dat.py", "read_elast_data"), ("io/traditional/qha_input.py", "read_energy"),
-                 ("io/config/config.py", "update_config"), ("io/config/config.py", "apply_default_config"), ("util/fill.py", "fill_cij"),
-                 ("core/qha_adapter.py", "_load_qha_calculator"), ("core/mode_gamma.py", "interpolate_modes"), ("core/full_modulus.py", "calculate_phonon_contribution"), ("core/full_modulus.py", "modulus_adiabatic"), ("core/full_modulus.py", "get_static_modulus")],
-    "calc.write": [("core/calculator.py", "write_output"), ("core/calculator.py", "write_variables"), ("core/calculator.py", "write_table"), ("core/calculator.py", "v2p"),
-                   ("io/output/results_writer.py", "write_variable"), ("io/output/results_writer.py", "write_ij_variable"), ("io/output/results_writer.py", "write"),
-                   ("io/traditional/qha_output.py", "save_x_tp"), ("io/traditional/qha_output.py", "save_x_tv")],
-    "calc.read": [("core/calculator.py", "v2p"), ("core/calculator.py", "__getattr__"), ("core/calculator.py", "__getitem__")],
-    "cli.fill": [("util/fill.py", "fill_cij"), ("cli/fill.py", "main")],
-    "cli.extract": [("cli/extract.py", "main"), ("cli/extract.py", "load_data")],
-    "cli.geotherm": [("cli/geotherm.py", "main"), ("cli/geotherm.py", "load_data"), ("cli/geotherm.py", "fit_data")],
-    "io.write_energy": [("io/traditional/qha_input.py", "write_energy")],
-    "io.read_energy": [("io/traditional/qha_input.py", "read_energy"), ("io/traditional/qha_input.py", "_read_volume_data")],
+_F = {   # functions of the pinned tree with four or more lines, by file (one-off AST scan); a function a change adds is still reached by the uniformly drawn lines
+    "core/calculator.py": ["__init__", "_load", "_apply_elastic_constants_symmetry", "_interpolate_modes", "_calculate_pressure_static", "_process_cij",
+                           "_calculate_compliances", "__getattr__"],
+    "core/calculator.py#w": ["write_output", "write_variables", "write_table", "v2p", "__getitem__", "items", "primary_velocities", "secondary_velocities",
+                             "bulk_modulus_reuss", "shear_modulus_reuss", "modulus_adiabatic", "modulus_isothermal"],
+    "core/full_modulus.py": ["fit_modulus", "get_static_modulus", "_get_init_strain", "get_axial_strains", "calculate_phonon_contribution", "modulus_adiabatic", "modulus_isothermal"],
+    "core/mode_gamma.py": ["interpolate_modes", "interpolate_mode_lsq_poly", "interpolate_mode_spline", "interpolate_mode_ppoly", "interpolate_mode_lagrange", "interpolate_mode_krogh"],
+    "core/phonon_contribution/nonshear.py": ["__init__", "prefactors", "Q", "Q1", "Q2", "zero_point_contribution", "thermal_contribution", "value_isothermal",
+                                             "isothermal_to_adiabatic", "value_adiabatic"],
+    "core/phonon_contribution/shear.py": ["__init__", "fictitious_strain", "fictitious_strain_rotated", "transformation_matrix", "fictitious_strain_energy",
+                                          "fictitious_strain_energy_rotated", "strain_rotated", "get_target_elastic_modulus"],
+    "core/qha_adapter.py": ["__init__", "_load_qha_calculator", "read_input"],
+    "core/tasks.py": ["resolve", "calculate", "get_modulus_isothermal", "get_modulus_adiabatic", "get_dependencies", "__setitem__", "__getitem__", "create"],
+    "io/config/config.py": ["read_config", "update_config", "apply_default_config"],
+    "io/config/validate.py": ["validate_config"],
+    "io/traditional/elast_dat.py": ["read_elast_data", "apply_symetry_on_elast_data", "_find_modulus_key"],
+    "io/traditional/qha_input.py": ["read_energy", "_read_volume_data", "_read_weights"],
+    "io/traditional/qha_input.py#w": ["write_energy", "_yield_volume_data", "_yield_weights"],
+    "io/output/results_writer.py": ["write_variable", "write_ij_variable", "write", "__init__", "_init_rules", "create"],
+    "io/traditional/qha_output.py": ["save_x_tp", "save_x_tv", "save_x_pt"],
+    "util/fill.py": ["fill_cij"],
+    "util/units.py": ["convert_unit", "_to_gpa", "_to_ang3"],
+    "data/__init__.py": ["get_data_fname"],
+    "cli/fill.py": ["main"], "cli/extract.py": ["main", "load_data"], "cli/geotherm.py": ["main", "load_data", "fit_data"], "cli/main.py": ["main"],
 }
-AIM["cli.run"] = AIM["calc.new"] + AIM["calc.write"]
+
+
+def _aim(*files):
+    return [(f.split("#")[0], fn) for f in files for fn in _F[f]]
+
+
+AIM = {
+    "calc.new": _aim("core/calculator.py", "core/full_modulus.py", "core/mode_gamma.py", "core/phonon_contribution/nonshear.py", "core/phonon_contribution/shear.py",
+                     "core/qha_adapter.py", "core/tasks.py", "io/config/config.py", "io/config/validate.py", "io/traditional/elast_dat.py", "io/traditional/qha_input.py",
+                     "util/fill.py", "data/__init__.py"),
+    "calc.write": _aim("core/calculator.py#w", "io/output/results_writer.py", "io/traditional/qha_output.py", "util/units.py"),
+    "calc.read": _aim("core/calculator.py#w", "util/units.py"),
+    "cli.fill": _aim("util/fill.py", "cli/fill.py", "data/__init__.py"),
+    "cli.extract": _aim("cli/extract.py"),
+    "cli.geotherm": _aim("cli/geotherm.py"),
+    "io.write_energy": _aim("io/traditional/qha_input.py#w"),
+    "io.read_energy": _aim("io/traditional/qha_input.py"),
+}
+AIM["cli.run"] = AIM["calc.new"] + AIM["calc.write"] + _aim("cli/main.py")
+
+
+ABANDONABLE = {"calc.read", "cli.extract", "cli.geotherm", "io.read_energy", "io.read_elast"}
 
 
 def gen_faults(rng, programs, n):
@@ -614,6 +645,14 @@ def gen_faults(rng, programs, n):
                 f["func"] = list(rng.choice(AIM[op["op"]]))
                 f["line"] = rng.choice([1, 1, 2, 3, 5, 8, 13, 30])
         faults.append(f)
+    # after the LAST planned fault of a read-only operation the client may give the operation up instead of retrying it ("abandon"):
+    # whatever the aborted attempt left behind then meets the client's NEXT, different request
+    last = {}
+    for f in faults:
+        last[(f["client"], f["op"])] = f
+    for (c, i), f in last.items():
+        if programs[c][i]["op"] in ABANDONABLE and rng.random() < 0.35:
+            f["abandon"] = True
     return faults
 
 
@@ -667,6 +706,22 @@ def derive_world(rng, tier, base, name, methods):
 
 SEG_ANY = {"calc.new", "calc.read", "calc.write", "cli.run", "cli.fill", "env.mutate_config"}
 SEG_RO = {"calc.new", "calc.read", "cli.fill"}
+SEG_EXTRACT = {"cli.extract", "cli.geotherm"}
+
+
+def _seg_pair_ok(oa, ob):
+    ka, kb = oa["op"], ob["op"]
+    if (ka in SEG_ANY and kb in SEG_RO) or (kb in SEG_ANY and ka in SEG_RO):
+        return True
+    # two table readers (or a table reader next to a calculator being built or read): nothing is written, everything may interleave
+    if (ka in SEG_EXTRACT and kb in SEG_EXTRACT | {"calc.read", "calc.new"}) or (kb in SEG_EXTRACT and ka in SEG_EXTRACT | {"calc.read", "calc.new"}):
+        return True
+    # two writers whose file sets are disjoint by construction: explicit variable lists on different bases (every default name carries its base)
+    if ka == kb == "calc.write" and oa.get("vars") and ob.get("vars"):
+        ba, bb = oa["vars"]["base"], ob["vars"]["base"]
+        plain = all(isinstance(e, str) or not e.get("fname") for e in oa["vars"]["list"] + ob["vars"]["list"])
+        return plain and "both" not in (ba, bb) and ba != bb
+    return False
 
 
 def add_segments(rng, schedule, programs):
@@ -681,8 +736,7 @@ def add_segments(rng, schedule, programs):
     while k < len(schedule):
         if k + 1 < len(schedule) and made < 3 and schedule[k] != schedule[k + 1] and rng.random() < 0.5:
             (a, ia), (b, ib) = ops_at[k], ops_at[k + 1]
-            ka, kb = programs[a][ia]["op"], programs[b][ib]["op"]
-            if (ka in SEG_ANY and kb in SEG_RO) or (kb in SEG_ANY and ka in SEG_RO):
+            if _seg_pair_ok(programs[a][ia], programs[b][ib]):
                 nsw = rng.choice([1, 2, 3, 5, 8, 13, 40])
                 sw = [int(10 ** rng.uniform(0, 3.6)) for _ in range(nsw)]
                 out.append({"par": [a, b], "switches": sw})
@@ -732,7 +786,7 @@ def gen_scenario(prop, seed, tier, faults_enabled=None, nclients=None, segments_
         if prop == "C19":
             w["stubs"] = gen_stub_tables(rng, n, w, rng.randint(0, 2))
         worlds[n] = w
-    segments = prop in ("C14", "C12") and nclients > 1 and rng.random() < (0.45 if segments_p is None else segments_p)
+    segments = prop in ("C14", "C12", "C15", "C19") and nclients > 1 and rng.random() < ((0.45 if prop in ("C14", "C12") else 0.3) if segments_p is None else segments_p)
     if segments or (prop in ("C15", "C19", "C17") and nclients > 1 and rng.random() < 0.6):
         for n in names:           # clients share one working directory: last writer wins
             if worlds[n]["datadir"] == worlds[n]["cwd"]:
